@@ -90,6 +90,10 @@ def run_controls(mod, ctx, report, args):
     report.controls = done
 
 
+class TimeBudgetExceeded(BaseException):
+    """Raised by the alarm handler; not an Exception, so no handler inside the analysis can swallow it."""
+
+
 def main(argv=None):
     ap = argparse.ArgumentParser()
     ap.add_argument("prop")
@@ -122,7 +126,7 @@ def main(argv=None):
         import signal
 
         def _expired(signum, frame):
-            raise AnalysisError(f"no verdict within the time budget of {budget} s (set SV_TIME_LIMIT to change it)")
+            raise TimeBudgetExceeded(f"no verdict within the time budget of {budget} s (set SV_TIME_LIMIT to change it)")
 
         signal.signal(signal.SIGALRM, _expired)
         signal.alarm(budget)
@@ -136,6 +140,15 @@ def main(argv=None):
             hit = any(f.rule == rep["rule"] and f.construct == rep["construct"] for f in report.findings)
             print("replay: finding " + ("reproduced" if hit else "NOT reproduced on this tree"))
         return code
+    except TimeBudgetExceeded as e:
+        if report.findings:
+            print(f"note: analysis incomplete ({e})")
+            try:
+                return report.finish(write=not args.no_write)
+            except AnalysisError:
+                pass
+        print(f"ANALYSIS-ERROR property={prop} {e}")
+        return 2
     except AnalysisError as e:
         if report.findings:
             # part of the analysis could not be completed, but violations were already established: report those
